@@ -210,6 +210,9 @@ func spareCopy(g orb.Geometry) (orb.Geometry, func() bool) {
 // sharedBuffer returns a copy of g whose point slices are consecutive sections of one array, each with capacity
 // reaching into the following ones (the layout a caller gets by carving geometries out of one coordinate
 // buffer). A function that appends to one part overwrites the start of the next.
+// sharedArena, when set, is the array sharedBuffer carves from (callers switch it on for runs of events).
+var sharedArena []orb.Point
+
 func sharedBuffer(g orb.Geometry) orb.Geometry {
 	n := 0
 	var count func(g orb.Geometry)
@@ -243,6 +246,11 @@ func sharedBuffer(g orb.Geometry) orb.Geometry {
 	}
 	count(g)
 	buf := make([]orb.Point, n)
+	if len(sharedArena) >= n && n > 0 {
+		// a long-lived buffer that held other geometries before (same addresses, other contents): what a function kept
+		// about an earlier geometry must not be taken for this one
+		buf = sharedArena[:n]
+	}
 	at := 0
 	take := func(ps []orb.Point) []orb.Point {
 		if ps == nil {
